@@ -9,7 +9,7 @@ import (
 
 // C03 obligation B: asDbKey gives every key column the direction and collation
 // of the index column and converts Go values to the five storage classes.
-//verif:prop C03
+//verif:prop C03,C20
 //verif:shards 10
 //verif:bounds keys of 0..3 values over 12 Go kinds (nil,int64,float64,string,[]byte,int,uint,int32,uint32,float32,bool,unsupported) against index definitions of 2 columns with DESC / COLLATE (nocase, NOCASE, rtrim, unknown) per column
 func VH_C03_dbkey() {
